@@ -73,7 +73,10 @@ def _program_listing(program, with_sets=True):
     for inst in program:
         p1 = inst.param1
         if inst.op_code is OpCode.TIME_PATTERN:
-            p1 = ('pattern', world.match_set(p1) if with_sets else None)
+            try:
+                p1 = ('pattern', world.match_set(p1) if with_sets else None)
+            except Exception as ex:       # the pattern object itself is broken (e.g. it contains itself)
+                p1 = ('pattern', 'match() raises %s' % type(ex).__name__)
         out.append((inst.op_code, repr(inst.param0), p1 if isinstance(p1, tuple) else repr(p1)))
     return out
 
